@@ -153,17 +153,25 @@ PLAN["C15"] = dict(
 
 PLAN["C07"] = dict(
     level="other",
-    functions=[(GFA, "GFA.write_gfa#L-line-from-start"), (GFA, "GFA.write_gfa#L-line-from-end"), (GFA, "GFA.write_gfa#both-loops"), (GFA, "GFA.add_edge"), (GFA, "GFA.add_node")],
-    explanation="PROVED: add_node stores every tag of an S line under its name as (type, value), nothing else (a repeated name keeps its last "
+    functions=[(GFA, "GFA.write_gfa#L-line-from-start"), (GFA, "GFA.write_gfa#L-line-from-end"), (GFA, "GFA.write_gfa#both-loops"), (GFA, "GFA.write_gfa#links-of-one-node"),
+               (GFA, "GFA.add_edge"), (GFA, "GFA.add_node")],
+    lemmas=[gfa_c.lemma_exactly_once],
+    explanation="PROVED: for one node, the link lines written are exactly one L line (fields, signs, overlap, tags or none for the [0] sentinel) per entry "
+                "of its start set, then of its end set, whose neighbour is among the written nodes and whose tags are stored under THIS end's key - "
+                "nothing else (ghost enumerations of the two sets, prefix counts, source map); with the edge_tags state in which every link has "
+                "non-empty tags under exactly one of its two keys (what read_graph builds when each link is declared by one L line: precondition, "
+                "bounded-checked) every link between written nodes is emitted from exactly one end (lemma). add_node stores every tag of an S line under its name as (type, value), nothing else (a repeated name keeps its last "
                 "occurrence), and links tags under the key of the declaring end (add_edge). Both output loops of write_gfa as one fragment (any number of nodes and links): every S line precedes every L line, there is exactly "
                 "one S line per listed node that exists in the graph, in the listed order (ghost prefix count), carrying that node's id. The L-line emitted by write_gfa for an adjacency entry carries orientation signs that decode through E_DIR (the table "
                 "add_edge uses) to exactly the stored sides, with id, overlap and tags in place (both the start-side and the end-side branch); "
                 "add_edge stores exactly the declared link at both ends. BOUNDED: exactly-once emission per declared link (edge_tags keying), "
                 "S-before-L, (BO,NO) order, tag round trip, CSV rows, load->write->independent-reader equality.",
     trusted_base=["'\\t'.join / split round trip (assumed)", "Node.to_gfa_line caller view (an S line with the node id second); nodes[k].id == k (representation invariant, precondition)",
-                  "exactly-once emission of links, (BO,NO) order of the S lines (sort_bo_no), CSV, tags: BOUNDED stand-in only"],
+                  "read_graph (file -> graph, incl. 'every link has tags under exactly one key'), (BO,NO) order of the S lines (sort_bo_no), CSV: BOUNDED stand-in only",
+                  "an int stored in a string-typed list (the [0] sentinel) is represented by a reserved string code"],
     mutations=[
         dict(name="add_node swaps tag type and value", file=GFA, old="                self[node_id].tags[tag[0]] = (tag[1], tag[2])", new="                self[node_id].tags[tag[0]] = (tag[2], tag[1])", expect="add_node", functions=[(GFA, "GFA.add_node")], quick=False),
+        dict(name="write_gfa looks the end-side tags up under the start-side key", file=GFA, old="                        tags = self.edge_tags[(n1, 1, n[0], n[1])]", new="                        tags = self.edge_tags[(n1, 0, n[0], n[1])]", expect="links-of-one-node", functions=[(GFA, "GFA.write_gfa#links-of-one-node")]),
         dict(name="write_gfa writes an S line after the links of a node", file=GFA, old='            for e in edges:\n                f.write(e + "\\n")\n\n        f.close()', new='            for e in edges:\n                f.write(e + "\\n")\n            f.write(self.nodes[n1].to_gfa_line() + "\\n")\n\n        f.close()', expect="write_gfa#both-loops", functions=[(GFA, "GFA.write_gfa#both-loops")]),
         dict(name="swap sign in one write_gfa branch", file=GFA, old='"\\t".join(["L", str(n1), "-", str(n[0]), "+", overlap] + tags)', new='"\\t".join(["L", str(n1), "-", str(n[0]), "-", overlap] + tags)', expect="write_gfa", functions=[(GFA, "GFA.write_gfa#L-line-from-start")]),
     ],
